@@ -281,6 +281,11 @@ impl ControlFlowGraph {
 
                 // remove the block we just merged
                 self.graph.remove_vertex(successor_index)?;
+
+                // the exit follows the block that absorbed it
+                if self.exit == Some(successor_index) {
+                    self.exit = Some(merge_index);
+                }
             }
         }
         Ok(())
